@@ -554,6 +554,11 @@ def _sync_job_workspaces(
                 copy(fn_src, fn_dst)
             else:
                 logger.debug(f"Skip file '{fn}'.")
+    for fn in diff.common_funny:
+        if _skip(fn):
+            continue
+        # A file on one side and a directory on the other cannot be synchronized.
+        raise FileSyncConflict(fn)
     for _subdir in diff.subdirs:
         if recursive:
             _sync_job_workspaces(
